@@ -52,4 +52,7 @@ var items = []modItem{
 	{"SNBT", Item{Dir: "nbt", Kind: "func", Func: "isFloatType", Name: "isFloatType"}},
 	{"SNBT", Item{Dir: "nbt", Kind: "func", Func: "isIntegerType", Name: "isIntegerType"}},
 	{"SNBT", Item{Dir: "nbt", Kind: "cond", Recv: "scanner", Func: "pushParseState", Err: "", Name: "pushParseState_ok"}},
+	{"Packet", Item{Dir: "net/packet", Kind: "cond", Recv: "String", Func: "ReadFrom", Err: "string length less than zero", Name: "String_ReadFrom_negLen"}},
+	{"Packet", Item{Dir: "net/packet", Kind: "cond", Recv: "ByteArray", Func: "ReadFrom", Err: "byte array length less than zero", Name: "ByteArray_ReadFrom_negLen"}},
+	{"Packet", Item{Dir: "net/packet", Kind: "cond", Recv: "BitSet", Func: "ReadFrom", Err: "bit set length less than zero", Name: "BitSet_ReadFrom_negLen"}},
 }
